@@ -1,15 +1,37 @@
 import CalVerif.Model.XlsxCells
+import CalVerif.Model.Formats
 /-! Logical worksheet, its expected reading, and the **encoder** `renderSheet : Sheet → Layout → List Ev`
-    (ECMA-376 Part 1, §18.3.1 `worksheet`/`sheetData`/`row`/`c`, §18.3.1.4 `c@r`/`c@t`/`c@s`, §18.18.11 `ST_CellType`).
+    (ECMA-376 Part 1, §18.3.1 `worksheet`/`sheetData`/`row`/`c`, §18.3.1.4 `c@r`/`c@t`/`c@s`, §18.18.11 `ST_CellType`,
+    §18.17.3 error values).
 
-    A layout chooses, for every row and every cell, whether the reference attribute `r` is written
-    (and the case of its letters), the element prefix, and the `<dimension>` element. The format makes an
-    omitted reference mean "previous + 1"; the encoder therefore *forces* a reference wherever the
-    position differs from the reader's cursor, so that every `Layout` value is a legal encoding
-    (`explicit := λ.explicit ∨ position ≠ cursor` is the legality predicate, built into the encoder). -/
+    A layout is every choice of the physical encoding the reader must be blind to:
+    * whether the reference attribute `r` is written on a row / a cell (and the case of its letters). An omitted
+      reference means "previous + 1"; the encoder *forces* a reference wherever the position differs from the
+      reader's cursor, so that every layout is a legal encoding (`explicit := λ.explicit ∨ position ≠ cursor`);
+    * the namespace prefix, chosen per sheet frame, per row and per cell;
+    * the order of the attributes of `<row>` and `<c>` and any inert extra attributes (`spans`, `ht`, `cm`, `vm`,
+      `ph`, `customHeight`, …): `rowArrange` / `cellArrange` are arbitrary functions on the attribute list, legal
+      when, on a list without duplicate names (XML forbids them), they preserve the lookups of the attributes
+      that carry meaning (`r`, `s`, `t`);
+    * the text of `<v>` / `<t>` arriving in several pieces (text nodes around comments, CDATA sections): `split`;
+    * `<dimension>`: absent, or any rectangle of the grid;
+    * ignorable markup: sibling elements of `<sheetData>` before it (`<sheetPr>`, `<sheetViews>`, `<cols>`, …:
+      anything that is not itself a `dimension`/`sheetData` start) and after it (anything at all), and white
+      space / comments between rows and cells. -/
 
 namespace XlsxSheet
 open XlsxCells
+
+/-! ### the documented error literals (ECMA-376 Part 1 §18.17.3), written independently of the code -/
+
+def documentedErrors : List (Bytes × CellErrorType) :=
+  [(asciiBytes "#DIV/0!", .div0), (asciiBytes "#N/A", .nA), (asciiBytes "#NAME?", .name), (asciiBytes "#NULL!", .null),
+   (asciiBytes "#NUM!", .num), (asciiBytes "#REF!", .ref), (asciiBytes "#VALUE!", .value)]
+
+/-- the literal of an error kind (`#GETTING_DATA` is not a SpreadsheetML error value: no literal) -/
+def errLiteral (k : CellErrorType) : Bytes := ((documentedErrors.find? (fun e => e.2 == k)).map (·.1)).getD []
+
+/-! ### logical sheet -/
 
 /-- what is stored in a `<c>` element -/
 inductive Content where
@@ -25,8 +47,8 @@ inductive Content where
   | fstr (s : Bytes)
   /-- `t="b"` `<v>0|1</v>` -/
   | bool (b : Bool)
-  /-- `t="e"` `<v>literal</v>`, the literal of code `k < 7` -/
-  | err (k : Nat)
+  /-- `t="e"` `<v>literal</v>` -/
+  | err (k : CellErrorType)
   /-- `t="d"` `<v>s</v>` -/
   | iso (s : Bytes)
   deriving Repr, DecidableEq
@@ -45,8 +67,12 @@ abbrev RowSpec := Nat × List (Nat × CellSpec)
 abbrev Sheet := List RowSpec
 
 structure Layout where
-  /-- element prefix `x:` -/
+  /-- prefix `x:` on `worksheet`, `dimension`, `sheetData` -/
   pfx : Bool
+  /-- prefix on the `<row>` with this number -/
+  rowPfx : Nat → Bool
+  /-- prefix on the `<c>` at (row, col) and its children -/
+  cellPfx : Nat → Nat → Bool
   /-- the `<dimension ref>` element: absent, or any rectangle -/
   dim : Option Dims
   /-- write `r` on the row with this number even where it could be omitted -/
@@ -55,10 +81,45 @@ structure Layout where
   cellExplicit : Nat → Nat → Bool
   /-- lower-case column letters in the reference of the cell at (row, col) -/
   cellLower : Nat → Nat → Bool
+  /-- order of / additions to the attributes of the `<c>` at (row, col) -/
+  cellArrange : Nat → Nat → Attrs → Attrs
+  /-- order of / additions to the attributes of the `<row>` -/
+  rowArrange : Nat → Attrs → Attrs
+  /-- the pieces in which the text of `<v>` / `<t>` of the cell at (row, col) arrives -/
+  split : Nat → Nat → Bytes → List Bytes
+  /-- children of `<worksheet>` before / after `<dimension>` (both before `<sheetData>`) -/
+  beforeDim : List Ev
+  afterDim : List Ev
+  /-- everything between `</sheetData>` and `</worksheet>` -/
+  after : List Ev
+  /-- white space / comments before a `<row>`, before a `<c>`, before `</row>`, before `</sheetData>` -/
+  gapRow : Nat → List Ev
+  gapCell : Nat → Nat → List Ev
+  gapRowEnd : Nat → List Ev
+  gapEnd : List Ev
+
+/-- text nodes and comments only -/
+def Inert (l : List Ev) : Prop := ∀ ev ∈ l, ev = .other ∨ ∃ s, ev = .text s
+
+/-- no element of the list opens a `dimension` or a `sheetData` -/
+def NoHead (l : List Ev) : Prop :=
+  ∀ ev ∈ l, ∀ n a, ev = .start n a → localName n ≠ nDimension ∧ localName n ≠ nSheetData
 
 /-- the `<dimension>` of the layout is a rectangle of the grid (it need not be related to the data) -/
 def Layout.DimOk (lay : Layout) : Prop :=
   ∀ d, lay.dim = some d → d.sr < 1048576 ∧ d.sc < 16384 ∧ d.er < 1048576 ∧ d.ec < 16384
+
+/-- the layout is a legal encoding choice -/
+structure Layout.Legal (lay : Layout) : Prop where
+  dim : lay.DimOk
+  /-- re-ordering and inert additions keep the attributes that carry meaning -/
+  cellAttr : ∀ r c base k, base.Pairwise (fun p q => p.1 ≠ q.1) → (k = nR ∨ k = nS ∨ k = nT) →
+    getAttr (lay.cellArrange r c base) k = getAttr base k
+  rowAttr : ∀ r base, base.Pairwise (fun p q => p.1 ≠ q.1) → getAttr (lay.rowArrange r base) nR = getAttr base nR
+  /-- the pieces make up the text -/
+  split : ∀ r c t, (lay.split r c t).flatten = t
+  head : NoHead lay.beforeDim ∧ NoHead lay.afterDim
+  gaps : (∀ r, Inert (lay.gapRow r)) ∧ (∀ r c, Inert (lay.gapCell r c)) ∧ (∀ r, Inert (lay.gapRowEnd r)) ∧ Inert lay.gapEnd
 
 /-- strictly increasing first components, all below `bound` -/
 def Increasing {α : Type} (bound : Nat) : Nat → List (Nat × α) → Prop
@@ -70,25 +131,22 @@ def Sheet.WF (s : Sheet) : Prop :=
   Increasing 1048576 0 s ∧ ∀ row ∈ s, Increasing 16384 0 row.2
 
 /-- the contents are readable with this configuration: shared indices are inside the table
-    (and small enough for the index parser), error codes name a literal -/
+    (and small enough for the index parser), error kinds have a literal -/
 def Content.Ok (cfg : Cfg) : Content → Prop
   | .shared idx => idx < cfg.strings.length ∧ idx < 10 ^ 19
-  | .err k => k < 7
+  | .err k => k ≠ .gettingData
   | _ => True
 
 def Sheet.ContentOk (cfg : Cfg) (s : Sheet) : Prop :=
   ∀ row ∈ s, ∀ cell ∈ row.2, cell.2.content.Ok cfg
 
-/-- the format selected by the raw `s` attribute: `formats[atoi(s) or 0]`, `Other` when absent/out of range.
-    (Which formats are dates is property C10; here it is a parameter of the expected value.) -/
+/-- the format selected by the raw `s` attribute: `formats[atoi(s) or 0]`, `Other` when absent/out of range -/
 def styleFmt (cfg : Cfg) (style : Option Bytes) : CellFormat :=
   match style with
   | some s => cfg.formats.getD ((atoiUsize s).getD 0) .other
   | none => .other
 
-def errLiteral (k : Nat) : Bytes := (errorTable.getD k ([], 0)).1
-
-/-- the documented mapping: what reading the cell must give -/
+/-- what `next_cell` must return for the cell (`DataRef`, numbers still as tokens) -/
 def expect (cfg : Cfg) (cs : CellSpec) : Val :=
   match cs.content with
   | .blank => .empty
@@ -103,6 +161,73 @@ def expect (cfg : Cfg) (cs : CellSpec) : Val :=
 /-- the cells of the sheet in row-major order with their expected values -/
 def cellsOf (cfg : Cfg) (s : Sheet) : List (Nat × Nat × Val) :=
   s.flatMap fun row => row.2.map fun cell => (row.1, cell.1, expect cfg cell.2)
+
+/-! ### the value a caller sees: `Data` -/
+
+/-- `calamine::Data` as `worksheet_range` delivers it (`Int`/`DurationIso` are never produced by the xlsx reader).
+    `num`: `Float` or `DateTime`, C10's `Formats.NumData`. -/
+inductive Data where
+  | empty
+  | string (s : Bytes)
+  | bool (b : Bool)
+  | error (k : CellErrorType)
+  | dateTimeIso (s : Bytes)
+  | num (n : Formats.NumData)
+  deriving Repr, DecidableEq
+
+instance : Inhabited Data := ⟨.empty⟩
+
+/-- the two things the reader takes from outside the sheet part when it types a number: Rust's
+    `str::parse::<f64>` (trusted `std`; the result as a bit pattern) and the workbook's 1904 flag -/
+structure NumEnv where
+  parse : Bytes → Option UInt64
+  is1904 : Bool
+
+/-- `DataRef → Data` with the number token resolved: `text.parse::<f64>()` then `format_excel_f64_ref` (C10's
+    `formatF64`) with the format of the cell's style; an unparsable text is an error under `t="n"`, the string
+    itself when `t` is absent; a shared string is the string -/
+def toData (env : NumEnv) : Val → Res Data
+  | .empty => .ok .empty
+  | .str s => .ok (.string s)
+  | .shared s => .ok (.string s)
+  | .bool b => .ok (.bool b)
+  | .error k => .ok (.error k)
+  | .dateIso s => .ok (.dateTimeIso s)
+  | .num t fmt strict =>
+    match env.parse t with
+    | some bits => .ok (.num (Formats.formatF64 bits (some fmt) env.is1904))
+    | none => if strict then .err "ParseFloat" else .ok (.string t)
+
+/-- **the documented mapping**, stated on the logical cell without reference to the reader's `Val`:
+    numbers to `Float` — or to `DateTime` exactly when the format of the cell's style is a date/time or elapsed-time
+    format —, shared / inline / formula strings to `String`, booleans to `Bool`, error literals to `Error`,
+    ISO dates to `DateTimeIso`, anything else `Empty`; a `<v>` without `t` that is not a number is its text -/
+def expectData (env : NumEnv) (cfg : Cfg) (cs : CellSpec) : Data :=
+  match cs.content with
+  | .blank => .empty
+  | .num t tn =>
+    if tn ∧ t = [] then .empty
+    else match env.parse t with
+      | some bits =>
+        match styleFmt cfg cs.style with
+        | .dateTime => .num (.dateTime (.bits bits) .dateTime env.is1904)
+        | .timeDelta => .num (.dateTime (.bits bits) .timeDelta env.is1904)
+        | .other => .num (.float bits)
+      | none => .string t
+  | .shared idx => .string (cfg.strings.getD idx [])
+  | .inline s => .string s
+  | .fstr s => .string s
+  | .bool b => .bool b
+  | .err k => .error k
+  | .iso s => .dateTimeIso s
+
+/-- numbers declared `t="n"` are numbers (otherwise reading the sheet fails with `ParseFloat`) -/
+def Sheet.NumOk (env : NumEnv) (s : Sheet) : Prop :=
+  ∀ row ∈ s, ∀ cell ∈ row.2, ∀ t, cell.2.content = .num t true → t ≠ [] → env.parse t ≠ none
+
+/-- the cells of the sheet in row-major order with their documented values -/
+def dataOf (env : NumEnv) (cfg : Cfg) (s : Sheet) : List (Nat × Nat × Data) :=
+  s.flatMap fun row => row.2.map fun cell => (row.1, cell.1, expectData env cfg cell.2)
 
 /-! ### encoder -/
 
@@ -125,21 +250,24 @@ def refName (lower : Bool) (row col : Nat) : Bytes := colLetters lower col ++ de
 
 def dimRef (d : Dims) : Bytes := refName false d.sr d.sc ++ 58 :: refName false d.er d.ec
 
-def vEvents (p : Bool) (t : Bytes) : List Ev :=
-  [.start (q p nV) []] ++ (if t = [] then [] else [.text t]) ++ [.stop (q p nV)]
+/-- character data in pieces, each followed by a comment (so that the pieces stay separate events) -/
+def pieces (chunks : List Bytes) : List Ev := chunks.flatMap fun c => [.text c, .other]
 
-/-- `t` attribute and value children of a cell -/
-def contentEvents (p : Bool) : Content → Attrs × List Ev
+def vEvents (p : Bool) (chunks : List Bytes) : List Ev :=
+  [.start (q p nV) []] ++ pieces chunks ++ [.stop (q p nV)]
+
+/-- `t` attribute and value children of a cell; `sp` cuts a text into its pieces -/
+def contentEvents (p : Bool) (sp : Bytes → List Bytes) : Content → Attrs × List Ev
   | .blank => ([], [])
-  | .num t tn => (if tn then [(nT, tN)] else [], vEvents p t)
-  | .shared idx => ([(nT, nS)], vEvents p (dec idx))
+  | .num t tn => (if tn then [(nT, tN)] else [], vEvents p (sp t))
+  | .shared idx => ([(nT, nS)], vEvents p (sp (dec idx)))
   | .inline s =>
     ([(nT, tInlineStr)],
-     [.start (q p nIs) [], .start (q p nT) []] ++ (if s = [] then [] else [.text s]) ++ [.stop (q p nT), .stop (q p nIs)])
-  | .fstr s => ([(nT, tStr)], vEvents p s)
-  | .bool b => ([(nT, tB)], vEvents p [if b then 49 else 48])
-  | .err k => ([(nT, tE)], vEvents p (errLiteral k))
-  | .iso s => ([(nT, tD)], vEvents p s)
+     [.start (q p nIs) [], .start (q p nT) []] ++ pieces (sp s) ++ [.stop (q p nT), .stop (q p nIs)])
+  | .fstr s => ([(nT, tStr)], vEvents p (sp s))
+  | .bool b => ([(nT, tB)], vEvents p (sp [if b then 49 else 48]))
+  | .err k => ([(nT, tE)], vEvents p (sp (errLiteral k)))
+  | .iso s => ([(nT, tD)], vEvents p (sp s))
 
 def formulaEvents (p : Bool) : Option Bytes → List Ev
   | none => []
@@ -150,10 +278,12 @@ def styleAttr (style : Option Bytes) : Attrs := match style with | some s => [(n
 
 /-- one `<c>`; `cur` is the reader's column cursor when it reaches this element -/
 def renderCell (lay : Layout) (row col cur : Nat) (cs : CellSpec) : List Ev :=
+  let p := lay.cellPfx row col
   let explicit := lay.cellExplicit row col || col != cur
   let refAttr : Attrs := if explicit then [(nR, refName (lay.cellLower row col) row col)] else []
-  let ce := contentEvents lay.pfx cs.content
-  [.start (q lay.pfx nC) (refAttr ++ styleAttr cs.style ++ ce.1)] ++ formulaEvents lay.pfx cs.formula ++ ce.2 ++ [.stop (q lay.pfx nC)]
+  let ce := contentEvents p (lay.split row col) cs.content
+  lay.gapCell row col ++ [.start (q p nC) (lay.cellArrange row col (refAttr ++ styleAttr cs.style ++ ce.1))] ++
+    formulaEvents p cs.formula ++ ce.2 ++ [.stop (q p nC)]
 
 def renderCells (lay : Layout) (row : Nat) : Nat → List (Nat × CellSpec) → List Ev
   | _, [] => []
@@ -164,18 +294,23 @@ def renderRows (lay : Layout) : Nat → Sheet → List Ev
   | _, [] => []
   | cur, (row, cells) :: rest =>
     let explicit := lay.rowExplicit row || row != cur
-    [.start (q lay.pfx nRow) (if explicit then [(nR, dec (row + 1))] else [])] ++ renderCells lay row 0 cells ++
-      [.stop (q lay.pfx nRow)] ++ renderRows lay (row + 1) rest
+    lay.gapRow row ++
+      [.start (q (lay.rowPfx row) nRow) (lay.rowArrange row (if explicit then [(nR, dec (row + 1))] else []))] ++
+      renderCells lay row 0 cells ++ lay.gapRowEnd row ++ [.stop (q (lay.rowPfx row) nRow)] ++ renderRows lay (row + 1) rest
 
 def dimEvents (lay : Layout) : List Ev :=
   match lay.dim with
   | some d => [.start (q lay.pfx nDimension) [(nRef, dimRef d)], .stop (q lay.pfx nDimension)]
   | none => []
 
+/-- what follows `<sheetData>` -/
+def renderBody (s : Sheet) (lay : Layout) : List Ev :=
+  renderRows lay 0 s ++ lay.gapEnd ++ [.stop (q lay.pfx nSheetData)] ++ lay.after ++ [.stop (q lay.pfx nWorksheet)]
+
 /-- the worksheet part -/
 def renderSheet (s : Sheet) (lay : Layout) : List Ev :=
-  [.start (q lay.pfx nWorksheet) []] ++ dimEvents lay ++ [.start (q lay.pfx nSheetData) []] ++ renderRows lay 0 s ++
-    [.stop (q lay.pfx nSheetData), .stop (q lay.pfx nWorksheet)]
+  [.start (q lay.pfx nWorksheet) []] ++ lay.beforeDim ++ dimEvents lay ++ lay.afterDim ++
+    [.start (q lay.pfx nSheetData) []] ++ renderBody s lay
 
 /-! ### shared string table (§18.4.9 `sst`, §18.4.8 `si`, §18.4.4 `r`, §18.4.6 `rPh`) -/
 
